@@ -52,20 +52,23 @@ def kernel_gate(prog, rep, cands):
             syncflag = it.choose(2, 'syncflag')
             net = it.choose(3, 'net')
             rv = it.choose(len(dnr.variants), 'reqnet')
+            # the chain: one unstable block (the anchor) at a symbolic height - main_chain_height is the real function here; fork
+            # trees are kernel s
             h = it.fresh('chain_h', 'u32', 0, (1 << 32) - 4)
+            ts1 = btc.TreeScenario([])
+            concretize_ts(ts1, {1: 1})
             has_next = it.choose(2, 'next')
             mx = it.fresh('next_max', 'u32', 0, None) if has_next else None
             d = prog.src.find_adt(['GenericState'])
             utxos = H.mk_struct(prog, 'UtxoSet', utxos=Opaque('utxos'), network=btc.network(prog, net), address_utxos=Opaque('au'),
-                                balances=Opaque('bal'), next_height=SInt(0, 'u32'), should_time_slice=Opaque('sts'), ingesting_block=none())
+                                balances=Opaque('bal'), next_height=SInt(h.t, 'u32'), should_time_slice=Opaque('sts'), ingesting_block=none())
             vals = dict(utxos=utxos, api_access=flag(prog, access == 0), disable_api_if_not_fully_synced=flag(prog, syncflag == 0),
-                        unstable_blocks=Opaque('ub'))
+                        unstable_blocks=ts1.build_unstable(it, prog, SInt(2, 'u32'), net))
             state = Agg('GenericState', [Cell(vals.get(f, Opaque(f))) for f in d.fields])
             sref = Ref(Cell(state))
             writes = []
             it.overrides['with_state'] = lambda it_, k, r, a: it_.call_value(a[0], [sref])
             it.overrides['with_state_mut'] = lambda it_, k, r, a: (writes.append(1), UNIT)[1]
-            it.overrides['main_chain_height'] = it.overrides['state::main_chain_height'] = lambda it_, k, r, a: h
             it.overrides['GenericUnstableBlocks::next_block_headers_max_height'] = lambda it_, k, r, a: (some(mx) if has_next else none())
             cyc = []
             for nm in ('msg_cycles_available', 'runtime::msg_cycles_available', 'msg_cycles_accept', 'runtime::msg_cycles_accept',
@@ -416,7 +419,7 @@ def main():
                                     'NextBlockHeaders::{insert,remove,remove_until_height,get_max_height,get_height,get_header}',
                                     'GenericUnstableBlocks::{insert_next_block_header,block_depth,next_block_headers_max_height}', 'BlockTree::find_mut']
     rep.cov['stubs'] = btc.stub_docs(STUBS) + ['inner api functions -> recorder', 'with_state(f) -> f(&state); with_state_mut -> recorder',
-                                              'main_chain_height / next_block_headers_max_height -> symbolic (kernel g)',
+                                              'next_block_headers_max_height -> symbolic (kernel g; the real bookkeeping is kernel n); main_chain_height is real in both kernels (g: one block at a symbolic height, s: fork trees)',
                                               'Header::block_hash -> injective id carried in the nonce field (kernel n)', 'BTreeMap -> ordered association list']
     rep.assumptions = ['std models faithful', 'cycles / charge calls are recorded, any call before a refusal is flagged']
     cands = Cands()
